@@ -88,7 +88,8 @@ inst!(tw_abstract_4_8, [props=C03+C10 xprops=C14 tier=thorough cfg=x86std t=7200
 pub fn finder_nondet_ranker<const NLEN: usize, const HCAP: usize>(mode: u8, hmin: usize, hmax: usize) {
     force(mode);
     let nb: [u8; NLEN] = kani::any();
-    let n = place(&nb[..]);
+    let nz1 = [0u8; 1];
+    let n = place(crate::substr::nz(&nb, &nz1));
     let (hb, hlen) = sym_hay::<HCAP>(hmin, hmax);
     let h = place(&hb.0[..hlen]);
     let pre_none: bool = kani::any();
@@ -206,7 +207,8 @@ pub mod subiter {
     pub fn find_step<const NLEN: usize, const HCAP: usize>(mode: u8, hmin: usize, hmax: usize) {
         force(mode);
         let nb: [u8; NLEN] = kani::any();
-        let n = place(&nb[..]);
+        let nz1 = [0u8; 1];
+        let n = place(crate::substr::nz(&nb, &nz1));
         let (hb, hlen) = sym_hay::<HCAP>(hmin, hmax);
         let h = place(&hb.0[..hlen]);
         let pos: usize = kani::any();
@@ -253,7 +255,8 @@ pub mod subiter {
     pub fn rfind_step<const NLEN: usize, const HCAP: usize>(hmin: usize, hmax: usize) {
         force(1);
         let nb: [u8; NLEN] = kani::any();
-        let n = place(&nb[..]);
+        let nz1 = [0u8; 1];
+        let n = place(crate::substr::nz(&nb, &nz1));
         let (hb, hlen) = sym_hay::<HCAP>(hmin, hmax);
         let h = place(&hb.0[..hlen]);
         let some: bool = kani::any();
@@ -298,7 +301,8 @@ pub mod subiter {
     pub fn traverse<const NLEN: usize, const HLEN: usize>(rev: bool, via_finder: bool) {
         force(1);
         let nb: [u8; NLEN] = kani::any();
-        let n = place(&nb[..]);
+        let nz1 = [0u8; 1];
+        let n = place(crate::substr::nz(&nb, &nz1));
         let hb: [u8; HLEN] = kani::any();
         let h = place(&hb[..]);
         if !rev {
@@ -385,7 +389,8 @@ pub mod purity {
     pub fn two_searches<const NLEN: usize, const H1: usize, const H2: usize>(mode: u8, rev: bool) {
         force(mode);
         let nb: [u8; NLEN] = kani::any();
-        let n = place(&nb[..]);
+        let nz1 = [0u8; 1];
+        let n = place(crate::substr::nz(&nb, &nz1));
         let h1b: [u8; H1] = kani::any();
         let (h2b, h2len) = sym_hay::<H2>(0, H2);
         let h1 = place(&h1b[..]);
@@ -470,7 +475,8 @@ pub mod purity {
     pub fn iter_copies<const NLEN: usize, const HCAP: usize>(rev: bool) {
         force(1);
         let nb: [u8; NLEN] = kani::any();
-        let n = place(&nb[..]);
+        let nz1 = [0u8; 1];
+        let n = place(crate::substr::nz(&nb, &nz1));
         let (hb, hlen) = sym_hay::<HCAP>(0, HCAP);
         let h = place(&hb.0[..hlen]);
         if rev {
@@ -540,7 +546,8 @@ pub mod panics {
     /// assertion must stay unreachable); at or above it nothing may fail.
     pub fn below_min<const NLEN: usize, const HCAP: usize>(isa: u8, prefilter: bool) {
         let nb: [u8; NLEN] = kani::any();
-        let n = &nb[..];
+        let nz1 = [0u8; 1];
+        let n = crate::substr::nz(&nb, &nz1);
         let (i1, i2): (u8, u8) = (kani::any(), kani::any());
         let pair = match Pair::with_indices(n, i1, i2) {
             None => return,
